@@ -104,9 +104,11 @@ func (d *DHCPv6) DecodeFromBytes(data []byte, df gopacket.DecodeFeedback) error 
 		d.HopCount = data[1]
 		d.LinkAddr = net.IP(data[2:18])
 		d.PeerAddr = net.IP(data[18:34])
+		d.TransactionID = nil
 		offset = 34
 	} else {
 		d.TransactionID = data[1:4]
+		d.HopCount, d.LinkAddr, d.PeerAddr = 0, nil, nil
 		offset = 4
 	}
 
